@@ -355,16 +355,55 @@ func runC18S(s *kernel.Sim) {
 		}
 		s.Resume(p[tp.Choose(len(p))])
 	}
-	inGroup = false
-	if simLocks {
+	deadlocked := func(what string) bool {
+		if !simLocks {
+			return false
+		}
 		s.SettleLocks()
 		s.Rule("R4")
 		if dead, desc := s.Deadlocked(0); dead {
-			s.Violate("R4", "deadlock", "overlapping transactions %v: every live task waits for a lock and none of them can be released: %s", plan, desc)
+			s.Violate("R4", "deadlock", "overlapping %s %v: every live task waits for a lock and none of them can be released: %s", what, plan, desc)
+			return true
+		}
+		return false
+	}
+	if deadlocked("transactions") {
+		return
+	}
+	// the responses of the admitted ones overlap too (their releases, the system end
+	// flows); their outcome is not compared, they must all return
+	if !viaHandler {
+		nResp := 0
+		for i, t := range txns {
+			if t.out != "pass" {
+				continue
+			}
+			i, t := i, t
+			nResp++
+			s.Spawn(fmt.Sprintf("r%d", i), func() {
+				env.doResponse(fmt.Sprintf("c%d", i), "GET", paths[t.u][0], paths[t.u][1], 200, nil)
+			})
+		}
+		if simLocks && nResp > 0 {
+			// and one more request arrives on the concurrency quota meanwhile
+			nResp++
+			s.Spawn("late", func() {
+				run(env, &txn{u: 2}, "late")
+			})
+		}
+		for st := 0; st < 5000 && nResp > 0; st++ {
+			p := s.ParkedTasks()
+			if len(p) == 0 {
+				break
+			}
+			s.Resume(p[tp.Choose(len(p))])
+		}
+		if deadlocked("responses") {
 			return
 		}
-		s.SimLocks = false
 	}
+	inGroup = false
+	s.SimLocks = false
 	if s.Failed() {
 		return
 	}
